@@ -43,6 +43,9 @@ def run(ck):
         r3(ck, F)
         if cfg == "default":
             r4(ck, F)
+            # ... in detail: every live dispatcher stays on the list and is asked again, whatever it answered last time
+            from rules import C01
+            C01.r5(ck, F, rid="C12.R4")
             # a callsite registering concurrently must either be on the list the rebuild walks or compute its interest
             # after the reload: both follow from `register` holding the dispatchers lock across interest + push
             from rules import C04
